@@ -291,14 +291,30 @@ def _length_tabulate(ctx) -> None:
     aw = [D(2021, 10, 31, 1, 30, tzinfo=paris), D(2021, 10, 31, 2, 30, tzinfo=paris, fold=0), D(2021, 10, 31, 2, 30, tzinfo=paris, fold=1), D(2021, 10, 31, 3, 30, tzinfo=paris),
           D(2021, 3, 28, 1, 59, 59, 999999, tzinfo=paris), D(2021, 3, 28, 3, 0, tzinfo=paris), D(2021, 3, 28, 12, 0, tzinfo=ny), D(2021, 10, 31, 2, 45, 0, 1, tzinfo=paris, fold=0),
           D(2021, 10, 31, 0, 30, tzinfo=utc), D(2021, 10, 31, 6, 0, tzinfo=_dt.timezone(_dt.timedelta(hours=5, minutes=30))), D(2021, 11, 7, 1, 30, tzinfo=ny, fold=1), D(2021, 11, 7, 1, 30, tzinfo=ny, fold=0)]
+    try:
+        london = zoneinfo.ZoneInfo("Europe/London")
+        # a zone that is at +00:00 for part of the year: a zero offset is a falsy timedelta
+        aw += [D(2021, 3, 28, 0, 30, tzinfo=london), D(2021, 3, 28, 3, 0, tzinfo=london), D(2021, 1, 15, 12, 0, tzinfo=london), D(2021, 10, 31, 1, 30, tzinfo=london, fold=1)]
+    except Exception:       # noqa: BLE001
+        pass
+    # two distinct but equal tzinfo objects
+    aw += [D(2021, 6, 1, 12, 0, tzinfo=_dt.timezone(_dt.timedelta(hours=1))), D(2021, 6, 1, 18, 0, tzinfo=_dt.timezone(_dt.timedelta(hours=1)))]
     nv = [D(2021, 1, 31, 0, 0), D(2021, 3, 1, 12, 30, 15, 250000), D(2020, 2, 29, 23, 59, 59, 999999), D(2020, 2, 29, 23, 59, 59, 999998)]
     dates = [_dt.date(2021, 1, 31), _dt.date(2021, 3, 1), _dt.date(2020, 2, 29)]
     bad, n = [], 0
+
+    def pend(x):
+        """a stub standing for the pendulum DateTime / Date with the fields, tzinfo and fold of the native value x"""
+        if isinstance(x, _dt.datetime):
+            return minieval.Stub(_types=(_dt.datetime,), _pend="DateTime", _native=x, _eqkey=x, year=x.year, month=x.month, day=x.day, hour=x.hour, minute=x.minute,
+                                 second=x.second, microsecond=x.microsecond, tzinfo=x.tzinfo, fold=x.fold, utcoffset=x.utcoffset, astimezone=x.astimezone, tz=x.tzinfo)
+        return minieval.Stub(_types=(_dt.date,), _pend="Date", _native=x, _eqkey=x, year=x.year, month=x.month, day=x.day)
     try:
         funcs = {st.name: st for st in m.top() if isinstance(st, ast.FunctionDef)}
-        for group in (aw, nv, dates):
-            for a in group:
-                for b in group:
+        for group, wrap in ((aw, None), (nv, None), (dates, None), (aw, pend), (nv, pend), (dates, pend)):
+            for a0 in group:
+                for b0 in group:
+                    a, b = (a0, b0) if wrap is None else (wrap(a0), wrap(b0))
                     for absolute in (False, True):
                         made = []
 
@@ -307,19 +323,24 @@ def _length_tabulate(ctx) -> None:
                                 made.append((a_, k_))
                                 return minieval.Stub(_made=True)
                         glob = {"datetime": _dt.datetime, "date": _dt.date, "timedelta": _dt.timedelta, "timezone": _dt.timezone, "ValueError": ValueError, "TypeError": TypeError,
-                                "pendulum": minieval.Stub(DateTime=minieval.ClassStub(_new=None, _isa=lambda v: False), Date=minieval.ClassStub(_new=None, _isa=lambda v: False)),
+                                "pendulum": minieval.Stub(DateTime=minieval.ClassStub(_new=None, _isa=lambda v: getattr(v, "_pend", None) == "DateTime"),
+                                                          Date=minieval.ClassStub(_new=None, _isa=lambda v: getattr(v, "_pend", None) in ("Date", "DateTime"))),
                                 "super": lambda *a_: minieval.Stub(__new__=lambda cls_, *a2, **k2: (made.append((a2, k2)), minieval.Stub(_made=True))[1])}
                         n += 1
-                        label = f"Interval({a!r}, {b!r}{', absolute=True' if absolute else ''})"
-                        got = minieval.call(fn, [minieval.Stub(_cls="Interval"), a, b, absolute], {}, {**funcs, "$globals": glob})
+                        label = f"Interval({'pendulum ' if wrap else ''}{a0!r}, {'pendulum ' if wrap else ''}{b0!r}{', absolute=True' if absolute else ''})"
+                        try:
+                            got = minieval.call(fn, [minieval.Stub(_cls="Interval"), a, b, absolute], {}, {**funcs, "$globals": glob})
+                        except minieval.Raised as e:
+                            bad.append(f"{label}: raises {e.exc_name}")
+                            continue
                         if not getattr(got, "_made", False) or len(made) != 1 or made[0][0] or set(made[0][1]) - {"seconds", "microseconds", "days"}:
                             raise core.Unsupported("__new__ does not end in super().__new__(cls, seconds=...)")
                         k = made[0][1]
                         secs = _dt.timedelta(days=k.get("days", 0), seconds=k.get("seconds", 0), microseconds=k.get("microseconds", 0))
-                        if isinstance(a, _dt.datetime):
-                            want = inst(b) - inst(a)
+                        if isinstance(a0, _dt.datetime):
+                            want = inst(b0) - inst(a0)
                         else:
-                            want = b - a
+                            want = b0 - a0
                         if absolute:
                             want = abs(want)
                         if secs != want:
@@ -343,6 +364,8 @@ def _length_tabulate(ctx) -> None:
         return
     ctx.ob("LENGTH.tabulated", "Interval.__new__", not bad, f"{n} pairs evaluated: " + (f"wrong: {bad[:3]}" if bad else
            "the Duration is built from the exact elapsed time between the two instants"), m.loc(fn))
+    if not bad:
+        ctx.established(("FLOW",), "Interval.__new__", "LENGTH.tabulated")
 
 
 def run(ctx) -> None:
